@@ -103,6 +103,10 @@ type GenOpts struct {
 	// StopOn, when set, ends the evaluation early once a single-program
 	// observation satisfies it; the remaining programs get Status "skipped".
 	StopOn func(*ProgObs) bool
+	// ForceSingle, when set and true for the stderr of a multi-program
+	// invocation, makes GenAll re-run every program of that group alone (used
+	// when a diagnostic cannot be attributed to a program).
+	ForceSingle func(stderr string) bool
 }
 
 func groupTimeout(n int) time.Duration {
@@ -186,6 +190,9 @@ func (w *Workspace) GenAll(names []string, o GenOpts) map[string]*ProgObs {
 			return
 		}
 		status, r, g := runOnce(ns)
+		if status == "done" && len(ns) > 1 && o.ForceSingle != nil && o.ForceSingle(r.Stderr) {
+			status = "timeout" // re-run singly
+		}
 		if status == "done" || len(ns) == 1 {
 			record(ns, status, r, g)
 			return
